@@ -73,10 +73,7 @@ func TestVerifRace(t *testing.T) {
 		t.Fatal(err)
 	}
 	const n = 16
-	seq := make([]string, n)
-	for i := 0; i < n; i++ {
-		seq[i] = vrWork(shared, i)
-	}
+	// the concurrent phase runs first (lazily initialised shared state races on first use), the sequential reference after it
 	con := make([]string, n)
 	var wg sync.WaitGroup
 	for i := 0; i < n; i++ {
@@ -89,6 +86,10 @@ func TestVerifRace(t *testing.T) {
 		}(i)
 	}
 	wg.Wait()
+	seq := make([]string, n)
+	for i := 0; i < n; i++ {
+		seq[i] = vrWork(shared, i)
+	}
 	for i := range seq {
 		if seq[i] != con[i] {
 			fmt.Printf("RACE-DIFF goroutine %d: sequential %q concurrent %q\n", i, seq[i], con[i])
